@@ -203,13 +203,16 @@ class OpenDocument:
         import odf.element
         assert(isinstance(elt, element.Element) or isinstance(elt, odf.element.Element))
 
-        self.element_dict[elt.qname].remove(elt)
+        if elt in self.element_dict.get(elt.qname, ()):
+            self.element_dict[elt.qname].remove(elt)
         for e in elt.childNodes:
             if e.nodeType == element.Node.ELEMENT_NODE:
                 self.remove_from_caches(e)
 
         if elt.qname == (STYLENS, u'style'):
-            del self._styles_dict[elt.getAttrNS(STYLENS, u'name')]
+            name = elt.getAttrNS(STYLENS, u'name')
+            if self._styles_dict.get(name) is elt:
+                del self._styles_dict[name]
 
     def __register_stylename(self, elt):
         '''
@@ -766,7 +769,7 @@ class OpenDocument:
             self.rebuild_caches()
         result=self._styles_dict.get(ncname, None)
 
-        assert(isinstance(result, element.Element))
+        assert(result is None or isinstance(result, element.Element))
         return result
 
     def getElementsByType(self, elt):
